@@ -1,4 +1,5 @@
 // C03 finding C03-F2 (class "trace_in_flat_route"): a trace inside the longer operand of a "generalised matrix-vector" pattern.
+// STATUS: repaired in /repo (no_trace conjunct in is_generalised_matrix_vector / vector_matrix / matrix_matrix); this program now prints the expected values.
 //   g++ -std=c++14 -O2 -msse2 -I/repo c03_f2_trace_in_flat_route.cpp && ./a.out      (any ISA)
 // einsum<Index<0,0,1>,Index<1>>(a,b) denotes the scalar  r = sum_{i,j} a(i,i,j) * b(j).  internal::match_indices_from_end
 // (einsum_meta.h) only compares the overlapping tail of the two index lists (here <1> against <..,1>), so
